@@ -238,6 +238,24 @@ add("C19", "E2",
     "as in C16.",
     "DESIGN.md §3.2, §4 C19", category="model_checking")
 
+add("C17", "E3",
+    "crash-point enumeration of the cache write, BFS over cache histories with canonical states, schedule exploration of racing cold starts",
+    "(1) For the cache file of a small synthetic model every byte prefix (quick: a dense subset of "
+    "~600 offsets), zero-filled holes, flipped bytes, a non-dict pickle, another internal_version and "
+    "a left-over temporary file are materialised in the data directory and in the home cache "
+    "(os.access shimmed) and two later runs must succeed with the cache-free result and leave a "
+    "readable cache. (2) Breadth-first search over histories of {run, run in fresh process state, "
+    "edit content A/B, delete caches, data dir read-only/writable, tear caches, plant other-version "
+    "caches} with canonical states (content, access answer, state of every cache file, in-process "
+    "cache size); every run must return the reference result of the current content. (3) All "
+    "schedules (preemption-bounded) of 2-3 processes cold-starting on one directory under a "
+    "cooperative scheduler with points at exists/open/truncate/write chunk/close/replace of an "
+    "in-memory cache store; every process must get the reference data and the cache must end "
+    "complete. (4) Pickles lying next to shipped model files vs. a fresh parse.",
+    "Torn states are byte prefixes and zero-filled holes; other garbage only by classes. The race "
+    "store serialises file operations at the shim's points. Real file systems/OS scheduling are not owned.",
+    "DESIGN.md §3.3, §4 C17", category="model_checking")
+
 NOT_YET = {}
 
 def main():
